@@ -494,6 +494,52 @@ def check_gp_runs(h: Harness):
                     f"(individuals presented {len(ev.presented)} times, {len(set(ev.presented))} distinct)", {"step": name, "pop": pop, "spec": spec})
 
 
+def check_unnumbered_objectives(h: Harness):
+    """objectives that are NaN / +-inf for some programs (fitness functions do return them): whatever steps the individuals pass
+    through afterwards -- lexicase and tournament selection, elitism, whole GP generations -- the fitness RECORDED for an individual
+    stays what the fitness function returned for its program (compared textually: NaN is not equal to itself)"""
+    import warnings
+    from geneticengine.algorithms.gp.operators.selection import LexicaseSelection
+    from geneticengine.solutions.individual import Individual
+    warnings.filterwarnings("ignore", category=RuntimeWarning)
+    rng = h.rng
+    nan, inf = float("nan"), float("inf")
+    for trial in range(h.n(20, 150)):
+        n = rng.randint(4, 9)
+        rows = [[rng.choice([0.0, 1.0, 2.0, 5.0, nan, inf, -inf]), rng.choice([0.0, 1.0, 3.0, nan]), float(rng.randint(0, 9))] for _ in range(n)]
+        mins = [rng.random() < 0.5 for _ in range(3)]
+        problem = MultiObjectiveProblem(list(mins), lambda ph: list(rows[ph[1]]))
+        rep = ScriptRep(list(range(n)))
+        inds = [mk_ind(i, i, rep) for i in range(n)]
+        ev = SequentialEvaluator()
+        ev.evaluate(problem, inds)
+        r = NativeRandomSource(rng.randrange(10**6))
+        steps = [("lexicase", lambda: LexicaseSelection()), ("epsilon-lexicase", lambda: LexicaseSelection(epsilon=True)),
+                 ("tournament", lambda: TournamentSelection(2)), ("elitism", lambda: ElitismStep()),
+                 ("seq[lexicase,mutation]", lambda: SequenceStep(LexicaseSelection(), GenericMutationStep(1)))]
+        for sname, mk in steps:
+            try:
+                out = list(mk().apply(problem, ev, rep, r, list(inds), rng.randint(1, n), 0))
+            except Exception as e:  # noqa: BLE001
+                h.count(f"unnumbered:{sname}:raised:{type(e).__name__}")
+                continue
+            h.count(f"unnumbered:{sname}")
+            h.seen(f"unnumbered:{trial}:{sname}", nontrivial=True)
+            bad = None
+            for ind in list(inds) + [o for o in out if o.has_fitness(problem)]:
+                u, key = ind.get_phenotype()
+                want = [repr(float(x)) for x in rows[key]]
+                got = [repr(float(x)) for x in ind.get_fitness(problem).fitness_components]
+                if got != want:
+                    bad = (u, want, got)
+                    break
+            if bad:
+                h.fail("SequentialEvaluator.evaluate", "recorded-fitness-is-not-what-the-fitness-function-returns",
+                       f"after {sname}.apply the fitness recorded for individual #{bad[0]} is {bad[2]}, its fitness function returns {bad[1]} "
+                       f"(minimize={mins})", {"rows": [[repr(x) for x in row] for row in rows], "mins": mins, "step": sname})
+                break
+
+
 def check_real_representations(h: Harness):
     """fitness must be computed from the phenotype the INDIVIDUAL keeps, for every representation and
     both evaluators: after evaluation, recorded fitness == ff(individual.get_phenotype()), and the
@@ -553,6 +599,7 @@ def check_real_representations(h: Harness):
 
 
 def run(h: Harness):
+    check_unnumbered_objectives(h)
     check_real_representations(h)
     check_aggregate(h)
     check_sequential(h)
